@@ -176,6 +176,28 @@ def make_world(seed):
                     w.plant_sites(chrom, intr, nov_strand, "canonical")
             w.genes.append(g)
             pos += 2600 + rng.randint(2500, 3500)
+        # two unannotated isoforms of OPPOSITE strands in one locus that share an intron canonical on neither strand: the longer one has two
+        # more introns canonical on its strand and tails of its strand, the shorter one has no informative site at all and tails of the other
+        # strand (what is decided for the first must not be handed on to the second through the shared intron)
+        for k, s1 in enumerate("+-"):
+            s2 = "-" if s1 == "+" else "+"
+            span = 3500
+
+            def mm(lst):
+                return [(pos + a, pos + b) for a, b in lst] if s1 == "+" else sorted((pos + span - b, pos + span - a) for a, b in lst)
+            p1 = mm([(0, 300), (700, 950), (1400, 1700), (2300, 2600)])
+            p2 = mm([(1500, 1700), (2300, 2600), (3200, 3500)])
+            g = Gene("PAIR%d_%d" % (ci + 1, k + 1), chrom, s1)
+            g.hidden.append(Transcript(g.id + ".h1", g.id, chrom, s1, p1, False, "opposite-strand-pair-long"))
+            g.hidden.append(Transcript(g.id + ".h2", g.id, chrom, s2, p2, False, "opposite-strand-pair-short"))
+            shared_x = [i for i in g.hidden[0].introns if i in g.hidden[1].introns]
+            for intr in g.hidden[0].introns:
+                w.plant_sites(chrom, intr, s1, "none" if intr in shared_x else "canonical")
+            for intr in g.hidden[1].introns:
+                if intr not in shared_x:
+                    w.plant_sites(chrom, intr, s1, "none")
+            w.genes.append(g)
+            pos += span + rng.randint(2500, 3500)
         # ordinary genes with all site classes, hidden isoforms for novel models
         for gi, sc in enumerate(("canonical", "gc_ag", "at_ac", "opposite", "none", "canonical")):
             g, end = w.make_gene("G%d_%d" % (ci + 1, gi + 1), chrom, pos, rng.choice("+-"), n_exons=rng.randint(4, 6),
@@ -218,7 +240,7 @@ def make_world(seed):
                 w.plant_sites(t.chrom, (ex[-1][1] + 1, right_exon[0] - 1), t.strand, "canonical")
                 w.make_read(t.chrom, ex + [right_exon], truth={"src": t.id, "class": "extra-right-exon-outside-gene"})
         for t in g.hidden:
-            for _ in range(24 if t.kind == "contested-intron-novel" else 12 if t.kind in ("splice-site-tie", "splice-site-tie-no-tail", "mixed-introns-novel") else 7):
+            for _ in range(24 if t.kind == "contested-intron-novel" else 12 if t.kind in ("splice-site-tie", "splice-site-tie-no-tail", "mixed-introns-novel", "opposite-strand-pair-long", "opposite-strand-pair-short") else 7):
                 w.read_from_transcript(t, mode="full", jitter=0, polya=t.kind != "splice-site-tie-no-tail", flag=rng.choice((0, 16)))
     from vlib import world2
     world2.add_zoo(w)
@@ -430,6 +452,8 @@ def run(chk, scratch):
                         chk.count("novel_models_over_an_intron_annotated_on_both_strands")
                     if h is not None and h.kind == "splice-site-tie":
                         chk.count("novel_models_with_tied_splice_sites")
+                    if h is not None and h.kind == "opposite-strand-pair-short":
+                        chk.count("novel_models_sharing_an_uninformative_intron_with_a_model_of_the_other_strand")
                     if h is not None and h.kind == "mixed-introns-novel":
                         chk.count("novel_models_with_mixed_introns")
                     if t["strand"] in ("+", "-") and evidence and t["strand"] not in evidence.values():
